@@ -437,6 +437,18 @@ def same_pair_connected_twice_gamma_or_dde(case):
     return False
 
 
+@predicate("F-04i")
+def parallel_edges_through_edge_templates(case):
+    """>=2 edges that go through an EdgeTemplate between the same source variable and the same target variable (wherever
+    in the hierarchy they are declared): the frontend bundles them into one edge with list-valued attributes"""
+    spec = case.get("spec") or {}
+    seen = {}
+    for s, t, e in _abs_edges(spec):
+        if e.get("et"):
+            seen[(s, t)] = seen.get((s, t), 0) + 1
+    return any(n >= 2 for n in seen.values())
+
+
 @predicate("F-09e")
 def two_delayed_source_variables_in_one_operator(case):
     """one operator (of one IR node) has >=2 different variables that are sources of delayed edges: the generated
